@@ -1,4 +1,4 @@
-//! `std::time` with `Instant` reading the simulated clock.
+//! `std::time` with `Instant` and `SystemTime::now()` reading the simulated clock.
 
 pub use std::time::*;
 
@@ -19,5 +19,66 @@ impl Instant {
     }
     pub fn duration_since(&self, earlier: Instant) -> Duration {
         Duration::from_nanos(self.0.saturating_sub(earlier.0))
+    }
+}
+
+
+/// `std::time::SystemTime` whose `now()` is the simulated wall clock (the real one would be a
+/// source of nondeterminism, and years ahead of every simulated mtime).
+#[derive(Clone, Copy, Debug, PartialEq, Eq, PartialOrd, Ord, Hash)]
+pub struct SystemTime(std::time::SystemTime);
+
+pub const UNIX_EPOCH: SystemTime = SystemTime(std::time::UNIX_EPOCH);
+
+impl SystemTime {
+    pub const UNIX_EPOCH: SystemTime = UNIX_EPOCH;
+    pub fn now() -> Self {
+        let ns = if try_ctx().is_none() { 0 } else { peek(|st, _| st.world.clock_ns) };
+        SystemTime(std::time::UNIX_EPOCH + Duration::from_nanos(ns))
+    }
+    pub fn duration_since(&self, earlier: SystemTime) -> Result<Duration, SystemTimeError> {
+        self.0.duration_since(earlier.0)
+    }
+    pub fn elapsed(&self) -> Result<Duration, SystemTimeError> {
+        Self::now().duration_since(*self)
+    }
+    pub fn checked_add(&self, d: Duration) -> Option<SystemTime> {
+        self.0.checked_add(d).map(SystemTime)
+    }
+    pub fn checked_sub(&self, d: Duration) -> Option<SystemTime> {
+        self.0.checked_sub(d).map(SystemTime)
+    }
+}
+
+impl std::ops::Add<Duration> for SystemTime {
+    type Output = SystemTime;
+    fn add(self, d: Duration) -> SystemTime {
+        SystemTime(self.0 + d)
+    }
+}
+impl std::ops::Sub<Duration> for SystemTime {
+    type Output = SystemTime;
+    fn sub(self, d: Duration) -> SystemTime {
+        SystemTime(self.0 - d)
+    }
+}
+impl std::ops::AddAssign<Duration> for SystemTime {
+    fn add_assign(&mut self, d: Duration) {
+        self.0 += d;
+    }
+}
+impl std::ops::SubAssign<Duration> for SystemTime {
+    fn sub_assign(&mut self, d: Duration) {
+        self.0 -= d;
+    }
+}
+impl From<std::time::SystemTime> for SystemTime {
+    fn from(t: std::time::SystemTime) -> Self {
+        SystemTime(t)
+    }
+}
+impl From<SystemTime> for std::time::SystemTime {
+    fn from(t: SystemTime) -> Self {
+        t.0
     }
 }
